@@ -128,10 +128,28 @@ def run(tier, seed=0, shard=(0, 1)):
     doms = [monoidal.Ty(), x, x @ x]
     rep = Report({'max_boxes': max_boxes, 'max_width': 4, 'boxes': [repr(b) for b in boxes],
                   'class': 'BFS under the real adjacent interchange, both flags, <= 400 members',
-                  'canonicity': 'normal form compared on <= 12 members of the class, left and right'})
+                  'canonicity': 'normal form compared on <= 12 members of the class, left and right',
+                  'frames': 'state on 2-3 wires >> 2 (thorough 3) boxes among unit, counit, endo, copy, merge at every offset >> effect'})
     for idx, d in enumerate(common.gen_diagrams(doms, boxes, max_boxes)):
         if idx % shard[1] != shard[0] or len(d) < 2:
             continue
         check(rep, d)
         rep.sample(repr(d))
+    # connected frames around ties: a state on k wires, two or three small boxes in the middle (units, counits,
+    # endomorphisms at every offset), an effect on the remaining wires -- the smallest connected diagrams in which
+    # both interchange directions are legal for a pair of adjacent boxes
+    Ty, Box = monoidal.Ty, monoidal.Box
+    mids = [Box('counit', x, Ty()), Box('unit', Ty(), x), Box('f', x, x), Box('copy', x, x @ x), Box('merge', x @ x, x)]
+    n_mid = 2 if tier == 'quick' else 3
+    idx = 0
+    for k in (2, 3):
+        a = Box('a', Ty(), x ** k)
+        for d in common.gen_diagrams([x ** k], mids, n_mid, max_width=4):
+            if len(d) < 2:
+                continue
+            idx += 1
+            if idx % shard[1] != shard[0]:
+                continue
+            b = Box('b', d.cod, Ty())
+            check(rep, a >> d >> b)
     return rep.result()
